@@ -232,6 +232,8 @@ PROPS["C19"] = {
           ["SeqGroup::{next_id,apply_range,need_apply,mark_apply,clear_apply_mark}", "SeqRange::{next_id,renew,has_next}"], t_quick=900),
         H("c19", "k19_3_simple_sequence_6", "every history of <=6 steps over {publish via leader, leader change, snapshot, restart with snapshot + log-suffix replay} on two replicas; batch 1..=3",
           ["SimpleSequence::{next_state,set_valid_last_id,set_last_id,get_end_id}"], t_quick=900),
+        H("c19", "k19_3_simple_sequence_8", "every history of <=8 steps over the same operations (a node that led, then applied a later leader's mark, then leads again needs 7 steps to show a stale batch)",
+          ["SimpleSequence::{next_state,set_valid_last_id,set_last_id,get_end_id}"], t_quick=1500, t_thorough=3600),
         H("c19", "k19_4_sections", "every start < 2^62, batch 1..=1000, section size <= 10^6", ["SimpleSequence::{next_id,next_section,get_end_id}"], t_quick=300),
     ],
     "assumptions": _K_ASSUME[:1] + [
